@@ -792,6 +792,10 @@ class Check:
         os.makedirs(os.path.join(VERIF, "evidence"), exist_ok=True)
         json.dump(ev, open(os.path.join(VERIF, "evidence", self.prop + ".json"), "w"), indent=1, default=str)
         log("%s %s: %d violations, %d known findings, %.1fs" % (self.prop, self.tier, len(self.violations), len(self.known_hit), time.time() - self.t0))
+        if not self.violations and self.cov.get("unreproduced"):
+            # a verdict that a fresh process does not reproduce is neither a violation nor a pass
+            log("HARNESS ERROR: %s" % self.cov["unreproduced"][0])
+            sys.exit(2)
         sys.exit(1 if self.violations else 0)
 
 
